@@ -21,8 +21,10 @@ Section == [kind : {"audio", "video", "application", "text"},
             rid : {"none", "one", "two-simulcast", "empty-rid", "dangling-simulcast", "paused"},
             rtpmap : {"ok", "unlisted", "none", "garbage"},
             extmap : {"ok", "malformed", "huge-id"},
-            fmtp : {"ok", "apt-unlisted", "apt-garbage", "none"},
+            fmtp : {"ok", "apt-unlisted", "apt-garbage", "none", "params-short", "params-empty", "params-odd"},
             cand : {"none", "ok", "garbage"}]
+\* fmtp "params-*": further codecs the endpoint supports (H264, VP9; Opus) whose format parameters are cut short
+\* (profile-level-id=42), present without a value, or malformed -- they reach the codec matching
 \* Most hostile input that gets far into the library is an almost valid description: a section is a
 \* valid one with at most two fields replaced by a defect class.
 FieldVals == [mid |-> {"absent", "dup", "empty"}, dir |-> {"recvonly", "sendonly", "inactive", "absent"},
@@ -30,7 +32,7 @@ FieldVals == [mid |-> {"absent", "dup", "empty"}, dir |-> {"recvonly", "sendonly
               group |-> {"fid2", "fid1", "fid3", "fecfr", "fid-nonnumeric", "fid-unknown"},
               rid |-> {"one", "two-simulcast", "empty-rid", "dangling-simulcast", "paused"},
               rtpmap |-> {"unlisted", "none", "garbage"}, extmap |-> {"malformed", "huge-id"},
-              fmtp |-> {"apt-unlisted", "apt-garbage", "none"}, cand |-> {"ok", "garbage"}]
+              fmtp |-> {"apt-unlisted", "apt-garbage", "none", "params-short", "params-empty", "params-odd"}, cand |-> {"ok", "garbage"}]
 Base(k) == [kind |-> k, mid |-> "ok", dir |-> "sendrecv", ssrc |-> "one-msid", group |-> "none", rid |-> "none",
             rtpmap |-> "ok", extmap |-> "ok", fmtp |-> "ok", cand |-> "none"]
 Override == {<<f, v>> : f \in DOMAIN FieldVals, v \in UNION {FieldVals[g] : g \in DOMAIN FieldVals}}
@@ -65,6 +67,12 @@ AnswerOne == [kind : {"sdp"}, secs : {<<x>> : x \in AnsOne},
            sem : {"unified", "planb"}, me : {"both"}, bundle : {"ok"}, fp : {"session"},
            follow : {"none"}, phase : {"connected"}, type : {"answer"}, mirror : {TRUE}]
 
+\* every single defect class of an offered section, answered and applied, first exchange: all of them, not a sample
+OffOne == {[Base(k) EXCEPT ![o[1]] = o[2]] : k \in {"audio", "video", "application", "text"}, o \in {x \in Override : Valid(x)}}
+OfferOne == [kind : {"sdp"}, secs : {<<x>> : x \in OffOne},
+           sem : {"unified", "planb", "fallback"}, me : {"both"}, bundle : {"ok"}, fp : {"session"},
+           follow : {"answer+sld"}, phase : {"first"}, type : {"offer"}, mirror : {FALSE}]
+
 CandVec == [kind : {"cand"},
             foundation : {"ok", "empty", "long"}, component : {"1", "0", "256", "x"}, proto : {"udp", "tcp", "xyz", "UDP"},
             prio : {"ok", "neg", "overflow", "x"}, addr : {"v4", "v6", "mdns", "garbage", "empty"}, port : {"ok", "0", "65536", "x"},
@@ -86,6 +94,7 @@ Init == \/ vec \in RandomSubset(NRtp, RtpVec)
         \/ vec \in RandomSubset((NVec * 2) \div 10, SdpVec)
         \/ vec \in RandomSubset((NVec * 3) \div 10, AnswerVec)
         \/ vec \in AnswerOne
+        \/ vec \in OfferOne
         \/ vec \in RandomSubset(NCand, CandVec)
 Next == UNCHANGED vec
 \* the contract, as far as the model can state it: every vector has a defined outcome class
